@@ -160,6 +160,9 @@ def run(tier, rep, ev):
             add(sizes=sizes, mode="process", sink="factory", schedule=[], seed=k, coder=["lzma2", "copy"][k % 2])
         for mode, sink in (("thread", "path"), ("thread", "factory"), ("process", "path")):
             add(sizes=sizes, mode=mode, sink=sink, schedule=[], seed=2, relname=True)
+        # a worker process that dies while writing (killed, not raising): the caller must not be told that all went well
+        for f in range(1, len(sizes) + 1):
+            add(sizes=sizes, mode="process", sink="path", suicide=[f], seed=f, schedule=[])
         # members of different folders under one directory without an entry of its own: the workers meet while creating it
         for k in range(2 if tier == "quick" else 12):
             add(sizes=sizes, mode="thread", sink="path", schedule=[], seed=k, shared_parent=True, mkdir_rendezvous=True, coder=["lzma2", "copy"][k % 2])
